@@ -412,7 +412,7 @@ type wtrace struct {
 
 func makeDFS(w workload, bound int, outcomes *mc.KeyCounter, preempt *int64) *mc.DFS {
 	return &mc.DFS{
-		Name: "sched", Config: w, MaxDev: bound, Workers: 1,
+		Name: "sched", Config: w, MaxDev: bound, Workers: 1, HangWatch: true,
 		Body: func(ch *mc.Chooser) *mc.Failure {
 			o := execute(w, ch)
 			if preempt != nil && o.sched.Preempted > 0 {
